@@ -327,6 +327,40 @@ func (p *prop) tagsAndOracle(k *kase, impl string, o *obs, out *core.Outcome) {
 	if len(o.attempts) > 1 {
 		tag(fmt.Sprintf("retry:attempts=%d,hops=%d", len(o.attempts), k.hops))
 	}
+	// ---------------- OL: the load balancer consumes the attributed address / the trusted flag
+	if k.lb == 1 && len(o.upstreams) > 0 {
+		tag("lb:client_ip_hash")
+		for _, u := range o.upstreams[1:] {
+			if u != o.upstreams[0] {
+				fail("client-ip-hash-changes-between-attempts", fmt.Sprintf("attempts went to %v", o.upstreams))
+				break
+			}
+		}
+		// metamorphic: a direct, header-less connection from the attributed address lands on the same upstream
+		if a, err := netip.ParseAddr(o.clientIP); err == nil {
+			k2 := *k
+			k2.remote = netip.AddrPortFrom(a, 1).String()
+			k2.hdrs, k2.fails, k2.omit = nil, 0, [3]bool{}
+			if _, o2, err := p.serve(&k2, nil); err == nil && len(o2.upstreams) > 0 && o2.clientIP == o.clientIP && o2.upstreams[0] != o.upstreams[0] {
+				fail("client-ip-hash-not-a-function-of-client-ip", fmt.Sprintf("client_ip %q goes to %s, the same address connecting directly goes to %s", o.clientIP, o.upstreams[0], o2.upstreams[0]))
+			}
+		}
+	}
+	if k.lb == 2 && o.sent {
+		tag("lb:cookie")
+		want := k.tls
+		if !k.srvTNil && refPeer(k.remote).addrOK {
+			spx, _ := parsePrefixes(k.srvT)
+			if anyContains(spx, refPeer(k.remote).addr) {
+				if v := o.out[fwdNames[1]]; len(v) > 0 && v[len(v)-1] == "https" {
+					want = true
+				}
+			}
+		}
+		if o.cookie != b01(want) {
+			fail("sticky-cookie-secure-flag", fmt.Sprintf("cookie Secure = %s; TLS %v, X-Forwarded-Proto sent %q (peer %q)", o.cookie, k.tls, o.out[fwdNames[1]], k.remote))
+		}
+	}
 	if o.sent && len(o.attempts) != k.fails+1 {
 		fail("harness-attempt-count", fmt.Sprintf("%d attempts, expected %d", len(o.attempts), k.fails+1))
 	}
@@ -400,6 +434,10 @@ func (p *prop) tagsAndOracle(k *kase, impl string, o *obs, out *core.Outcome) {
 			impl2, o2, err := p.serve(k, hv)
 			if err != nil {
 				continue
+			}
+			if k.lb == 1 && len(o.upstreams) > 0 && len(o2.upstreams) > 0 && o2.upstreams[0] != o.upstreams[0] {
+				fail("untrusted-header-influences-upstream-selection", fmt.Sprintf("variant %d of the forwarding headers moves the request from %s to %s", vi, o.upstreams[0], o2.upstreams[0]))
+				break
 			}
 			if o2.matchedIP != o.matchedIP {
 				fail("untrusted-header-influences-client-ip-matcher", fmt.Sprintf("variant %d of the forwarding headers flips the client_ip matcher", vi))
